@@ -199,6 +199,10 @@ class Decider:
                     self.v("rekey_changes_commutative_output",
                                  f"{p}: same payload bag {bag}, different bytes {old[0]} vs {data}",
                                  {"cases": [self.load(old[1])[0], case]})
+        if real.get("present_ok") is False:
+            self.v("digest_depends_on_channel_presentation_order",
+                   f"compute_emissions_digest of the same finalized channels {real['channels']} differs when the slice is reversed / rotated",
+                   {"cases": [case], "result": r})
         # --- digest and encodings are a 1:1 function of the finalized channels
         ok_sig = h(real["channels"])
         d3 = (real["digest"], real["frames"], real["v2"])
